@@ -12,6 +12,8 @@ accept boundary), and writes lean/Ptk/Gen/C17.lean:
   * input/posix_utils.py : the default `count` of `PosixStdinReader.read` (how much one read returns
     at most; the model's theorems hold for every read size, the harness places paste end markers
     across this boundary);
+  * application.py : the DEFAULT `ttimeoutlen` / `timeoutlen` of an `Application()` in milliseconds
+    (pinned in Ptk/Props/C17Flush.lean: the flush-timer theorem is stated for the regenerated default);
   * the running interpreter : the code point ranges matched by regex `\\d`.
 """
 from __future__ import annotations
@@ -104,6 +106,17 @@ def generate() -> None:
             read_count = 0
     except Exception:  # broken tree: keep the model compilable, the correspondence reports it
         rows, end_mark, pats, read_count = [], "", [], 0
+    # the DEFAULT flush timers of an Application (seconds -> milliseconds; 0 = None / unreadable)
+    try:
+        from prompt_toolkit.application import Application
+        from prompt_toolkit.input import DummyInput
+        from prompt_toolkit.output import DummyOutput
+
+        app = Application(input=DummyInput(), output=DummyOutput())
+        tt_ms = 0 if app.ttimeoutlen is None else int(round(float(app.ttimeoutlen) * 1000))
+        t_ms = 0 if app.timeoutlen is None else int(round(float(app.timeoutlen) * 1000))
+    except Exception:  # noqa
+        tt_ms, t_ms = 0, 0
 
     dg = re.compile(r"\d")
     body = "namespace Ptk.Gen.C17\n\n"
@@ -116,6 +129,11 @@ def generate() -> None:
     body += "def endMarkSrc : List Char := " + G.ltext(end_mark) + "\n\n"
     body += "/-- default `count` of `PosixStdinReader.read` -/\n"
     body += f"def readCount : Nat := {read_count}\n\n"
+    body += "/-- `Application().ttimeoutlen` in milliseconds: how long `auto_flush_input` waits after a read before\n"
+    body += "    the parser gives up on an incomplete escape sequence -/\n"
+    body += f"def ttimeoutlenMs : Nat := {tt_ms}\n\n"
+    body += "/-- `Application().timeoutlen` in milliseconds: the key processor's flush timer (0 = None) -/\n"
+    body += f"def timeoutlenMs : Nat := {t_ms}\n\n"
     for nm, attr, pat, flags in pats:
         body += f"/-- `{attr}.pattern` / `.flags` -/\n"
         body += f"def {nm} : String := " + G.lstr(pat) + "\n"
